@@ -59,7 +59,9 @@ type Task struct {
 	state TaskState
 	goid  uint64
 
-	spin      int // scheduling points since the task last blocked
+	spin      int   // scheduling points since the task last blocked
+	idleTicks int   // ticker-only clock jumps since the task began to await quiescence
+	idleFrom  int64 // ... and the virtual time at which it began
 	blockWhat string
 	blockObj  any
 	pcs       [10]uintptr
@@ -80,6 +82,9 @@ type event struct {
 	fn   func()
 	dead bool
 	idx  int
+	// periodic: the firing of a ticker. Tickers never end, so they neither keep
+	// the run alive nor the system "busy" for ever (see loop)
+	periodic bool
 }
 
 // Event is a handle to a scheduled event.
@@ -495,6 +500,7 @@ func Quiesce() {
 	s := S
 	t := s.cur
 	t.blockWhat = "await quiescence"
+	t.idleTicks, t.idleFrom = 0, s.now
 	s.park(t, StQuiesce)
 }
 
@@ -595,7 +601,33 @@ func (s *Sim) loop() {
 		}
 		ev := s.dueEvent()
 		if len(run) == 0 && ev == nil {
-			if nx := s.nextEvent(); nx != nil {
+			nx := s.nextEvent()
+			if nx != nil && s.onlyPeriodic() {
+				// Nothing but ticker firings ahead. A task that awaits quiescence lets
+				// the periodic work go on for a while (three firings at least and ten
+				// minutes of virtual time: longer than any timeout of the scenarios) and
+				// then takes the system for idle; without such a task the run is over
+				// once the scenario's own task has finished.
+				var q *Task
+				for _, t := range s.tasks {
+					if t.state == StQuiesce {
+						q = t
+						break
+					}
+				}
+				switch {
+				case q != nil && q.idleTicks >= 3 && s.now-q.idleFrom >= int64(10*time.Minute):
+					q.state = StRunnable
+					s.unlock()
+					continue
+				case q != nil:
+					q.idleTicks++
+				case len(s.tasks) > 0 && s.tasks[0].state == StDone:
+					s.unlock()
+					return
+				}
+			}
+			if nx != nil {
 				if time.Duration(nx.at) > s.cfg.MaxTime {
 					s.aborted = "timecap"
 					s.unlock()
